@@ -24,9 +24,13 @@ import (
 	"fmt"
 	"go/ast"
 	"go/build"
+	"go/importer"
 	"go/parser"
 	"go/token"
+	"go/types"
+	"io"
 	"os"
+	"os/exec"
 	"path/filepath"
 	"reflect"
 	"regexp"
@@ -34,6 +38,254 @@ import (
 	"strconv"
 	"strings"
 )
+
+// ---------------------------------------------------------------------------
+// Type information (optional). With it, multi-word copies of structs and small
+// arrays are split into their parts with yields in between, so that the
+// scheduler can also produce the torn reads and torn writes that a real
+// machine may produce for a non-atomic copy. Without it (type checking failed
+// for any reason) instrumentation proceeds without tearing.
+
+var (
+	typeInfo = map[*ast.File]*types.Info{}
+	typePkg  = map[*ast.File]*types.Package{}
+	tornN    int
+)
+
+type modImporter struct {
+	std     types.Importer
+	checked map[string]*types.Package
+}
+
+func (m *modImporter) Import(path string) (*types.Package, error) {
+	if p := m.checked[path]; p != nil {
+		return p, nil
+	}
+	return m.std.Import(path)
+}
+
+// typeCheck type-checks the module's packages in dependency order, using the
+// compiler's export data for everything outside the module.
+func typeCheck(pkgs []*pkgInfo, parsed map[*pkgInfo]map[string]*ast.File) error {
+	cmd := exec.Command("go", "list", "-export", "-deps", "-f", "{{.ImportPath}}={{.Export}}", "./...")
+	cmd.Dir = *repo
+	out, err := cmd.Output()
+	if err != nil {
+		return fmt.Errorf("go list -export: %v", err)
+	}
+	exports := map[string]string{}
+	for _, l := range strings.Split(string(out), "\n") {
+		if i := strings.IndexByte(l, '='); i > 0 && l[i+1:] != "" {
+			exports[l[:i]] = l[i+1:]
+		}
+	}
+	lookup := func(path string) (io.ReadCloser, error) {
+		f, ok := exports[path]
+		if !ok {
+			return nil, fmt.Errorf("no export data for %s", path)
+		}
+		return os.Open(f)
+	}
+	imp := &modImporter{std: importer.ForCompiler(fset, "gc", lookup), checked: map[string]*types.Package{}}
+	remaining := append([]*pkgInfo(nil), pkgs...)
+	for len(remaining) > 0 {
+		progress := false
+		var next []*pkgInfo
+		for _, p := range remaining {
+			ready := true
+			var files []*ast.File
+			for _, f := range p.files {
+				af := parsed[p][f]
+				files = append(files, af)
+				for _, im := range af.Imports {
+					ip, _ := strconv.Unquote(im.Path.Value)
+					if strings.HasPrefix(ip, modPath) && imp.checked[ip] == nil && ip != p.imp {
+						ready = false
+					}
+				}
+			}
+			if !ready {
+				next = append(next, p)
+				continue
+			}
+			info := &types.Info{Types: map[ast.Expr]types.TypeAndValue{}}
+			conf := types.Config{Importer: imp, Error: func(error) {}}
+			tp, _ := conf.Check(p.imp, fset, files, info)
+			if tp == nil {
+				return fmt.Errorf("type check of %s failed", p.imp)
+			}
+			imp.checked[p.imp] = tp
+			for _, af := range files {
+				typeInfo[af] = info
+				typePkg[af] = tp
+			}
+			progress = true
+		}
+		if !progress {
+			return fmt.Errorf("import cycle or unresolved module import")
+		}
+		remaining = next
+	}
+	return nil
+}
+
+// pureExpr: re-evaluating the expression has no side effect and names the
+// same location (identifiers, field selections, dereferences, constant or
+// identifier indices).
+func pureExpr(e ast.Expr) bool {
+	switch t := e.(type) {
+	case *ast.Ident:
+		return t.Name != "_"
+	case *ast.SelectorExpr:
+		return pureExpr(t.X)
+	case *ast.StarExpr:
+		return pureExpr(t.X)
+	case *ast.ParenExpr:
+		return pureExpr(t.X)
+	case *ast.IndexExpr:
+		switch t.Index.(type) {
+		case *ast.Ident, *ast.BasicLit:
+			return pureExpr(t.X)
+		}
+	}
+	return false
+}
+
+func hasFuncLit(e ast.Expr) bool {
+	found := false
+	ast.Inspect(e, func(n ast.Node) bool {
+		if _, ok := n.(*ast.FuncLit); ok {
+			found = true
+		}
+		return !found
+	})
+	return found
+}
+
+// parts returns the selectors (".name" or "[i]") of the top-level parts of a
+// multi-word value of type t that code in package pkg may name, or nil.
+func parts(t types.Type, pkg *types.Package) []string {
+	switch u := t.Underlying().(type) {
+	case *types.Struct:
+		var out []string
+		for i := 0; i < u.NumFields(); i++ {
+			f := u.Field(i)
+			if f.Name() == "_" {
+				continue
+			}
+			if !f.Exported() && f.Pkg() != pkg {
+				return nil
+			}
+			out = append(out, "."+f.Name())
+		}
+		if len(out) < 2 || len(out) > 12 {
+			return nil
+		}
+		return out
+	case *types.Array:
+		if u.Len() < 2 || u.Len() > 8 {
+			return nil
+		}
+		var out []string
+		for i := int64(0); i < u.Len(); i++ {
+			out = append(out, fmt.Sprintf("[%d]", i))
+		}
+		return out
+	}
+	return nil
+}
+
+// tear rewrites the multi-word copy `L = R` / `c := R` (a struct or small
+// array) into part-wise copies with yields in between. Single-threaded
+// semantics are preserved: every read of R completes before the first store
+// to L. It reports whether it rewrote the statement.
+func (in *instr) tear(f *ast.File, src []byte, as *ast.AssignStmt, fn string) bool {
+	info := typeInfo[f]
+	if info == nil || len(as.Lhs) != 1 || len(as.Rhs) != 1 || (as.Tok != token.ASSIGN && as.Tok != token.DEFINE) {
+		return false
+	}
+	tv, ok := info.Types[as.Rhs[0]]
+	if !ok || tv.Type == nil {
+		return false
+	}
+	ps := parts(tv.Type, typePkg[f])
+	if ps == nil || hasFuncLit(as.Rhs[0]) {
+		return false
+	}
+	L, R := as.Lhs[0], as.Rhs[0]
+	if id, ok := L.(*ast.Ident); ok && id.Name == "_" {
+		return false
+	}
+	if as.Tok == token.ASSIGN && !pureExpr(L) {
+		return false
+	}
+	text := func(n ast.Node) string { return string(src[in.tf.Offset(n.Pos()):in.tf.Offset(n.End())]) }
+	lt, rt := text(L), "("+text(R)+")"
+	y := func() string { return fmt.Sprintf("simrt.Yield(%d); ", in.newSite(as.Pos(), "torn", fn)) }
+	var b strings.Builder
+	switch {
+	case as.Tok == token.DEFINE:
+		if !pureExpr(R) {
+			return false
+		}
+		// c := R, then the later parts are read again after a yield (torn load)
+		b.WriteString(lt + " := " + rt + "; " + y())
+		for _, p := range ps[1:] {
+			b.WriteString(lt + p + " = " + rt + p + "; ")
+		}
+	default:
+		b.WriteString("{ vt__ := " + rt + "; ")
+		if pureExpr(R) {
+			b.WriteString(y())
+			for _, p := range ps[1:] {
+				b.WriteString("vt__" + p + " = " + rt + p + "; ")
+			}
+		}
+		for i, p := range ps {
+			if i > 0 {
+				b.WriteString(y())
+			}
+			b.WriteString("(" + lt + ")" + p + " = vt__" + p + "; ")
+		}
+		b.WriteString("}")
+	}
+	in.replace(as.Pos(), in.tf.Offset(as.End())-in.tf.Offset(as.Pos()), b.String())
+	tornN++
+	hot[fn] = true // a non-atomic copy is a place where a switch can tear state
+	return true
+}
+
+// tearIfInit handles `if c := R; cond {` where c := R is a multi-word copy of a
+// re-readable expression: the copy is hoisted in front of the if statement
+// (inside a new block, so that scoping is unchanged) and split like any other.
+func (in *instr) tearIfInit(f *ast.File, src []byte, is *ast.IfStmt, fn string) {
+	as, ok := is.Init.(*ast.AssignStmt)
+	info := typeInfo[f]
+	if !ok || info == nil || as.Tok != token.DEFINE || len(as.Lhs) != 1 || len(as.Rhs) != 1 || !pureExpr(as.Rhs[0]) {
+		return
+	}
+	tv, ok := info.Types[as.Rhs[0]]
+	if !ok || tv.Type == nil {
+		return
+	}
+	ps := parts(tv.Type, typePkg[f])
+	if ps == nil {
+		return
+	}
+	text := func(n ast.Node) string { return string(src[in.tf.Offset(n.Pos()):in.tf.Offset(n.End())]) }
+	lt, rt := text(as.Lhs[0]), "("+text(as.Rhs[0])+")"
+	var b strings.Builder
+	b.WriteString("{ " + lt + " := " + rt + "; " + fmt.Sprintf("simrt.Yield(%d); ", in.newSite(as.Pos(), "torn", fn)))
+	for _, p := range ps[1:] {
+		b.WriteString(lt + p + " = " + rt + p + "; ")
+	}
+	in.insert(is.Pos(), b.String())
+	// drop "c := R;" from the if header
+	in.replace(as.Pos(), in.tf.Offset(is.Cond.Pos())-in.tf.Offset(as.Pos()), "")
+	in.insert(is.End(), " }")
+	tornN++
+	hot[fn] = true
+}
 
 // hot lists the functions that touch package-level state or synchronisation:
 // the scheduler's site policy aims preemptions at them.
@@ -102,6 +354,7 @@ var (
 	repo    = flag.String("repo", "/repo", "repository root")
 	out     = flag.String("out", "", "output directory (must exist)")
 	mode    = flag.String("mode", "accessor", "accessor | yield-entry | yield-full")
+	noTear  = flag.Bool("no-tear", false, "do not split multi-word copies")
 	modPath string
 	fset    = token.NewFileSet()
 	sites   []site
@@ -152,14 +405,27 @@ func main() {
 		die("no root package")
 	}
 
-	for i, p := range pkgs {
-		parsed := map[string]*ast.File{}
+	allParsed := map[*pkgInfo]map[string]*ast.File{}
+	for _, p := range pkgs {
+		allParsed[p] = map[string]*ast.File{}
 		for _, f := range p.files {
 			af, err := parser.ParseFile(fset, filepath.Join(p.dir, f), nil, parser.ParseComments)
 			if err != nil {
 				die("parse: %v", err)
 			}
-			parsed[f] = af
+			allParsed[p][f] = af
+		}
+	}
+	if strings.HasPrefix(*mode, "yield") && !*noTear {
+		if err := typeCheck(pkgs, allParsed); err != nil {
+			fmt.Fprintf(os.Stderr, "instrument: no type information (%v): multi-word copies are not split\n", err)
+			typeInfo = map[*ast.File]*types.Info{}
+		}
+	}
+	for i, p := range pkgs {
+		parsed := allParsed[p]
+		for _, f := range p.files {
+			af := parsed[f]
 			collectGlobals(p, af)
 			scanBlocking(af)
 		}
@@ -212,6 +478,9 @@ func main() {
 		nglob += len(p.globals)
 	}
 	fmt.Printf("instrument: mode=%s packages=%d globals=%d sites=%d go_stmts=%d may_block=%v\n", *mode, len(pkgs), nglob, len(sites)-1, goCount, mayBlock)
+	if tornN > 0 {
+		fmt.Printf("instrument: %d multi-word copies split into parts\n", tornN)
+	}
 }
 
 func write(overlay map[string]string, virt, name, src string) {
@@ -336,11 +605,13 @@ type edit struct {
 }
 
 type instr struct {
-	p     *pkgInfo
-	file  string
-	full  bool
-	tf    *token.File
-	edits []edit
+	p       *pkgInfo
+	file    string
+	full    bool
+	tf      *token.File
+	edits   []edit
+	astFile *ast.File
+	src     []byte
 }
 
 func (in *instr) newSite(pos token.Pos, kind, fn string) uint32 {
@@ -375,6 +646,12 @@ func (in *instr) stmts(list []ast.Stmt, fn string) {
 		if in.full {
 			if _, isEmpty := s.(*ast.EmptyStmt); !isEmpty {
 				in.yieldAt(s.Pos(), "stmt", fn)
+			}
+			if as, ok := s.(*ast.AssignStmt); ok && in.astFile != nil && in.tear(in.astFile, in.src, as, fn) {
+				continue
+			}
+			if is, ok := s.(*ast.IfStmt); ok && in.astFile != nil {
+				in.tearIfInit(in.astFile, in.src, is, fn)
 			}
 		}
 		in.walk(s, fn)
@@ -449,7 +726,7 @@ func instrumentFile(p *pkgInfo, name string, f *ast.File, full bool) string {
 	if err != nil {
 		die("%v", err)
 	}
-	in := &instr{p: p, file: name, full: full, tf: fset.File(f.Pos())}
+	in := &instr{p: p, file: name, full: full, tf: fset.File(f.Pos()), astFile: f, src: src}
 	for _, d := range f.Decls {
 		fd, ok := d.(*ast.FuncDecl)
 		if !ok || fd.Body == nil {
